@@ -21,6 +21,11 @@ type Device struct {
 	FailRead  map[int]error
 	FailSync  map[int]error
 
+	// OnWriteInFlight, if set, is called once (it is cleared before the
+	// call) at the start of the next WriteAt, before the write takes
+	// effect: the write is "in flight" while the hook runs.
+	OnWriteInFlight func(off int64, p []byte)
+
 	Writes, Reads, Syncs int
 	WrittenBytes         int64
 	closed               int
@@ -81,6 +86,13 @@ func (d *Device) ReadAt(p []byte, off int64) (int, error) {
 }
 
 func (d *Device) WriteAt(p []byte, off int64) (int, error) {
+	d.mu.Lock()
+	hook := d.OnWriteInFlight
+	d.OnWriteInFlight = nil
+	d.mu.Unlock()
+	if hook != nil {
+		hook(off, p)
+	}
 	d.mu.Lock()
 	defer d.mu.Unlock()
 	n := d.Writes
